@@ -186,6 +186,37 @@ def run(ctx):
                 l1 += 1
                 ctx.violation("shadow-report-locations", {"stage": "L1 CS0001 primary/secondary locations", "source": src, "implementation": got,
                                                           "specified": want, "broken": None})
+        # shadowing warnings of a template must be displayed whichever way its CFG first came to be built: directly, or on demand
+        # because another template that instantiates it was analysed first (hash order: the run is repeated)
+        cands = []
+        for (src, o), line in zip(meta, out):
+            parts = line.split(" # ")
+            m = re.match(r"template (T\d+) \(([^)]*)\)", src)
+            if m and len(parts) == 4 and parts[2].split() and "cfg" in o and parts[3].strip() != "true":
+                nparams = len([x for x in m.group(2).split(",") if x.strip()])
+                cands.append((src, m.group(1), nparams, len(parts[2].split())))
+        projects = []
+        for j, (src, name, nparams, nshadow) in enumerate(cands[:(5 if ctx.tier == "quick" else 30)]):
+            args = ", ".join(str(i + 1) for i in range(nparams))
+            outer = "template Outer%d() { signal input x; signal output y; component c = %s(%s); y <== x; }\n" % (j, name, args)
+            projects.append(("chain", "pragma circom 2.0.0;\n" + src + "\n" + outer, nshadow))
+            projects.append(("chain-outer-first", "pragma circom 2.0.0;\n" + outer + src + "\n", nshadow))
+        projects.append(("mutual", "pragma circom 2.0.0;\n"
+                         "template A(n) { signal input x; signal output y; var t = n; if (n) { var t = 2; y <== x * t; } else { y <== x; } component b = B(n); }\n"
+                         "template B(n) { signal input x; signal output y; var u = n; { var u = 3; y <== x * u; } component a = A(n); }\n", 2))
+        reqs3, metas3 = [], []
+        for j, (kind, text, nshadow) in enumerate(projects):
+            p = wd.write("proj%d.circom" % j, text)
+            for rep_i in range(4):
+                reqs3.append({"inputs": [p], "libs": [], "curve": "BN254"})
+                metas3.append((kind, text, nshadow))
+        for (kind, text, nshadow), rep in zip(metas3, vlib.analyze(reqs3)):
+            got = len([r for r in vlib.reports_of(rep) if r["id"] == "CS0001"])
+            stats["multi-template runs (%s)" % kind] += 1
+            if got != nshadow:
+                l1 += 1
+                ctx.violation("shadow-reports-project %s" % kind, {"stage": "L1 shadowing warnings displayed for every template of a project", "files": {"main.circom": text},
+                                                                   "specified_count": nshadow, "displayed_count": got, "broken": None})
     if not ok:
         ctx.violation("theorem " + ";".join(failing)[:200], {"broken": "theorem", "failing": failing}, no_input=True)
     cov = ctx.coverage
